@@ -174,6 +174,10 @@ func runC01(r *rt.Runner) {
 		{"codespacerange", []string{"<00>", "<ff>"}}, {"cidchar", []string{"<41>", "7"}}, {"cidrange", []string{"<41>", "<43>", "7"}},
 		{"bfchar", []string{"<41>", "<0041>"}}, {"bfrange", []string{"<41>", "<43>", "<0041>"}}, {"bfrange", []string{"<41>", "<43>", "[ <0041> <0042> <0043> ]"}},
 		{"notdefchar", []string{"<41>", "7"}}, {"notdefrange", []string{"<41>", "<43>", "7"}},
+		// entries whose codes are both empty strings (equal length, not reversed)
+		{"codespacerange", []string{"<>", "<>"}}, {"cidrange", []string{"<>", "<>", "7"}}, {"bfrange", []string{"<>", "<>", "<0041>"}}, {"bfrange", []string{"<>", "<>", "[ <0041> ]"}},
+		{"bfrange", []string{"<>", "<>", "[ ]"}}, {"notdefrange", []string{"<>", "<>", "7"}}, {"cidchar", []string{"<>", "7"}}, {"bfchar", []string{"<>", "<>"}},
+		{"bfrange", []string{"<41>", "<41>", "[ ]"}}, {"bfrange", []string{"<41>", "<ff>", "[ <0041> ]"}}, {"bfrange", []string{"<00ff>", "<01ff>", "[ <0041> <0042> ]"}},
 	}
 	for _, op := range cmOps {
 		for pos := range op.entry {
@@ -616,6 +620,11 @@ func genHostileFont(rng *rand.Rand) ([]byte, string) {
 			acc := prev
 			if rng.IntN(4) == 0 && i >= 2 {
 				acc = int64(codes[i-2])
+			}
+			if rng.IntN(6) == 0 {
+				acc = int64(codes[i]) // the glyph names itself as its accent
+			} else if rng.IntN(8) == 0 {
+				prev = int64(codes[i]) // ... or as its base
 			}
 			num(&b, prev)
 			num(&b, acc)
